@@ -17,6 +17,7 @@ from .unit import Drift, REPO
 
 ROOT = os.path.dirname(os.path.dirname(os.path.abspath(__file__)))
 BUILD = os.path.join(ROOT, ".build")
+OUT = os.environ.get("VERIF_OUT", ROOT)   # evidence/ and replays/ go here (override for mutant runs)
 
 
 def load_registry():
@@ -213,7 +214,7 @@ def run_property(prop, tier, seed):
     # ---------------------------------------------------------------- report
     rc = 0
     lines = []
-    replay_dir = os.path.join(ROOT, "replays")
+    replay_dir = os.path.join(OUT, "replays")
     os.makedirs(replay_dir, exist_ok=True)
     for (obid, k, f) in known_hits:
         w = K.replay_known(k) if k.get("replay") else None
@@ -270,8 +271,8 @@ def run_property(prop, tier, seed):
     ev = {"property_id": prop, "tier": tier, "seed": seed, "level": level, "coverage": cov,
           "assumptions": sorted(set(cfg.get("assumptions", []) + reg.GLOBAL_ASSUMPTIONS)),
           "wall_s": round(wall, 2), "violations": len(seen)}
-    os.makedirs(os.path.join(ROOT, "evidence"), exist_ok=True)
-    with open(os.path.join(ROOT, "evidence", prop + ".json"), "w") as fh:
+    os.makedirs(os.path.join(OUT, "evidence"), exist_ok=True)
+    with open(os.path.join(OUT, "evidence", prop + ".json"), "w") as fh:
         json.dump(ev, fh, indent=1)
     for l in lines:
         print(l)
